@@ -213,6 +213,6 @@ MANIFEST_TEXT['C12'] = {
     'technique': 'SSA-level execution of the real tag parser + symbolic codec differential against schema-derived reference'}
 
 NOT_APPLICABLE = {
-    'C08': 'not built yet (planned: bounded interleavings of the descriptor cache)',
+    'C08': 'The engine is a single-threaded recursive interpreter with decision replay; a bounded-interleaving scheduler with a happens-before detector for the descriptor cache was designed (DESIGN.md s7 C08) but is not built, and sync.Pool/runtime internals are outside go/ssa. No schedule is explored, so nothing is claimed.',
     'C18': 'Allocation behaviour is decided by the gc compiler\'s escape analysis/inlining and runtime internals that do not exist at the go/ssa level this technique encodes; measuring MemStats would be a different technique (DESIGN.md s7 C18).',
 }
